@@ -181,3 +181,47 @@ Section Roundtrip.
     - now apply desk_skolem.
   Qed.
 End Roundtrip.
+
+(* A basepath under /.well-known/genid/ other than the rdflib one (and any
+   authority): de_skolemize takes the external branch, every skolem IRI is
+   replaced by ONE blank node (the module-level table [skolems]), so the round
+   trip renames the blank nodes in subject/object position through an injective
+   map - the result is isomorphic, not equal.  (A blank node that also occurs
+   as a predicate is not renamed there: outside RDF, cf. finding FC14a.) *)
+Section External.
+  Variable join : str -> str.
+  Variable parse : str -> urlinfo.
+  Variable safe : str -> bool.
+  Hypothesis ext_hyp : forall i, safe i = true ->
+    is_rdflib_skolem parse (join i) = false /\ is_external_skolem parse (join i) = true.
+
+  Definition ext_label (i : str) : str := 0%N :: join i.
+  Definition relabel_tm (t : sterm) : sterm :=
+    match t with SBlank i => SBlank (ext_label i) | _ => t end.
+  Definition relabel_t (t : striple) : striple :=
+    let '(s, p, o) := t in (relabel_tm s, p, relabel_tm o).
+
+  Lemma desk_external i : safe i = true -> desk parse (SIri (join i)) = SBlank (ext_label i).
+  Proof.
+    intros Hs. destruct (ext_hyp i Hs) as [H1 H2]. unfold desk. simpl str_of. now rewrite H1, H2.
+  Qed.
+
+  Theorem skolem_roundtrip_external g :
+    sk_wf parse safe g -> deskolemize_g parse (skolemize_g join g) = map relabel_t g.
+  Proof.
+    intros Hw. unfold deskolemize_g, skolemize_g. rewrite map_map.
+    apply map_ext_in. intros [[s p] o] Ht.
+    destruct (Hw s p o Ht) as [Hs Ho]. unfold skolemize_t, deskolemize_t, relabel_t.
+    assert (Es : desk parse (skolemize_tm join s) = relabel_tm s).
+    { destruct s; simpl in Hs; simpl skolemize_tm; simpl relabel_tm;
+        [apply desk_not_skolem; auto|now apply desk_external|apply desk_not_skolem; auto]. }
+    rewrite Es. f_equal.
+    destruct o; simpl in Ho; simpl skolemize_tm; simpl relabel_tm; auto.
+    - now apply desk_not_skolem.
+    - now apply desk_external.
+  Qed.
+
+  Lemma ext_label_inj : (forall i j, join i = join j -> i = j) ->
+    forall i j, ext_label i = ext_label j -> i = j.
+  Proof. intros Hj i j E. injection E as E. now apply Hj. Qed.
+End External.
